@@ -10,7 +10,7 @@ import re
 
 from .. import docs, names
 from ..common import rng, seed, tier
-from ..harness import Run, artefact_kind, classify_syntax, main_wrapper, tree_static_problems
+from ..harness import Run, artefact_kind, classify_syntax, dangling_mechanism, main_wrapper, tree_static_problems
 
 METAS = ["none", "poetry", "pdm", "setup"]
 
@@ -92,15 +92,14 @@ def judge(run: Run, j: dict, r: dict, inf: dict):
         if "SyntaxError" in u["what"]:
             continue
         n_problems += 1
-        m = re.search(r"No module named '[\w.]*\.models\.(\w+)'", u["what"]) or re.search(r"from \.\.models\.(\w+) import", u["what"])
-        mech = ":removed_by_cascade" if (m and (names.collide_key(m.group(1)) in removed or (removed and re.search(r"type_?\d+", m.group(1), re.I)))) else ""
+        mech = dangling_mechanism(u, r.get("tree") or {}, removed)
         vd.violation(f"unresolved_name:{artefact_kind(u['module'].replace('.', '/') + '.py')}{mech}", f"{u['module']}:{u['line']}: {u['what']}", witness)
     for h in res.get("hint_errors", []):
         if any(b[:-3] in h["exc"] for b in bad_files) or (bad_files and "NameError" in h["exc"]):
             continue  # consequence of a module that does not compile
         n_problems += 1
         m = re.search(r"name '(\w+)' is not defined", h["exc"])
-        mech = ":removed_by_cascade" if (m and (names.collide_key(m.group(1)) in removed or (removed and re.search(r"type_?\d+", m.group(1), re.I)))) else ""
+        mech = dangling_mechanism({"module": h["module"], "names": [m.group(1)] if m else []}, r.get("tree") or {}, removed)
         vd.violation(f"annotation_unresolvable:{artefact_kind(h['module'].replace('.', '/') + '.py')}{mech}", f"{h['module']}.{h['obj']}: {h['exc']}", witness)
     for f in sb.get("foreign_imports", []):
         n_problems += 1
